@@ -319,6 +319,88 @@ static void check_local(Ctx& ctx, Env& v, double lat0, double lon0, double h0, c
   }
 }
 
+// ------------------------------------------------------------------ E2: operation histories of one LocalCartesian object
+// Explicit-state BFS over all sequences of {L = LocalCartesian(lat,lon,h,earth), L.Reset(lat,lon,h)} up to the depth bound, over an
+// argument alphabet whose members are FORCED to collide (same lat/lon with different heights, lon and lon + 360 k, the poles with
+// different longitudes, same height at different latitudes).  States are de-duplicated on the bit patterns of ALL private fields
+// (origin, rotation, embedded Geocentric).  Oracle (differential, no tolerance): after every history the object must be bit for bit
+// the object a fresh LocalCartesian(lat,lon,h,earth) of the LAST operation is -- fields, accessors, Forward/Reverse/matrices of probe
+// points -- and the origin maps to (0,0,0); a copy of it must be identical as well.
+struct LCKey { uint64_t w[22]; bool operator<(const LCKey& o) const { return memcmp(w, o.w, sizeof w) < 0; } bool operator==(const LCKey& o) const { return !memcmp(w, o.w, sizeof w); } };
+static LCKey lc_key(const LocalCartesian& L) {
+  LCKey k; int i = 0;
+  for (double d : {L._lat0, L._lon0, L._h0, L._x0, L._y0, L._z0}) k.w[i++] = mc::bits(d);
+  for (int j = 0; j < 9; ++j) k.w[i++] = mc::bits(L._r[j]);
+  for (double d : {L._earth._a, L._earth._f, L._earth._e2, L._earth._e2m, L._earth._e2a, L._earth._e4a, L._earth._maxrad}) k.w[i++] = mc::bits(d);
+  return k;
+}
+struct LCArg { double lat, lon, h; };
+static std::string lc_opname(int op, const std::vector<LCArg>& A) {
+  const LCArg& a = A[op / 2];
+  return std::string(op % 2 ? "Reset(" : "construct(") + fmt(a.lat) + "," + fmt(a.lon) + "," + fmt(a.h) + ")";
+}
+static void lc_apply(LocalCartesian& L, int op, const std::vector<LCArg>& A, const Geocentric& earth) {
+  const LCArg& a = A[op / 2];
+  if (op % 2) L.Reset(a.lat, a.lon, a.h); else L = LocalCartesian(a.lat, a.lon, a.h, earth);
+}
+static void check_local_history(Ctx& ctx, Env& v, const std::vector<LCArg>& A, int depth) {
+  struct Node { LocalCartesian L; std::vector<int> hist; };
+  const int nops = 2 * (int)A.size();
+  std::map<LCKey, int> seen;
+  std::vector<Node> frontier;
+  { Node n{LocalCartesian(v.earth), {}}; seen[lc_key(n.L)] = 0; frontier.push_back(n); }       // start: the default-constructed object
+  uint64_t ntrans = 0;
+  const double probes[5][3] = {{48.25, 11.5, 1200}, {-33, 151, 0}, {90, 0, 5000}, {0, -170, -35.5}, {89.999, 371.5, 1e4}};
+  for (int d = 1; d <= depth && !frontier.empty(); ++d) {
+    std::vector<Node> next;
+    for (const Node& n : frontier) for (int op = 0; op < nops; ++op) {
+      Ctx::Case cs(ctx);
+      ++ntrans;
+      Node m = n; m.hist.push_back(op);
+      lc_apply(m.L, op, A, v.earth);
+      const LCArg& a = A[op / 2];
+      LocalCartesian F(a.lat, a.lon, a.h, v.earth);                   // the fresh object this history must be equivalent to
+      std::string hs; for (int o : m.hist) hs += (hs.empty() ? "" : "; ") + lc_opname(o, A);
+      std::string key = std::string("history ") + v.ef->name + ": " + hs;
+      mc::Fields F0{{"ellipsoid", v.ef->name}, {"origin", "history"}, {"last_op", op % 2 ? "Reset" : "construct"}, {"depth", fmti(d)}};
+      auto FF = [&](const char* kind) { mc::Fields f = F0; f.push_back({"kind", kind}); return f; };
+      LCKey km = lc_key(m.L), kf = lc_key(F);
+      ctx.sig(d * 2 + op % 2);
+      bool bad = false;
+      if (!(km == kf)) {
+        bad = true;
+        cfail(ctx, key + " fields", "private state after the history differs from a freshly constructed LocalCartesian(" + fmt(a.lat) + "," + fmt(a.lon) + "," + fmt(a.h) + "): origin (" + fx(m.L._x0) + "," + fx(m.L._y0) + "," + fx(m.L._z0) + ") vs (" + fx(F._x0) + "," + fx(F._y0) + "," + fx(F._z0) + "), h0 " + fmt(m.L._h0) + " vs " + fmt(F._h0), FF("history-state"));
+      }
+      // behaviour: accessors, origin -> 0, probes through Forward/Reverse with matrices, copy
+      if (!(mc::same_bits(m.L.LatitudeOrigin(), F.LatitudeOrigin()) && mc::same_bits(m.L.LongitudeOrigin(), F.LongitudeOrigin()) && mc::same_bits(m.L.HeightOrigin(), F.HeightOrigin()) &&
+            m.L.LatitudeOrigin() == a.lat && std::remainder(m.L.LongitudeOrigin() - a.lon, 360.0) == 0 && m.L.HeightOrigin() == a.h && m.L.EquatorialRadius() == v.ef->a && m.L.Flattening() == v.ef->f))
+        { bad = true; cfail(ctx, key + " accessors", "origin accessors after the history do not describe the last operation", FF("history-accessors")); }
+      { double x, y, z; m.L.Forward(a.lat, a.lon, a.h, x, y, z);
+        const double sc = dmax(std::max(v.ef->a, v.ef->a * (1 - v.ef->f)), std::fabs(a.h));
+        if (!(std::fabs(x) <= TOL_LOCAL * EPS * sc && std::fabs(y) <= TOL_LOCAL * EPS * sc && std::fabs(z) <= TOL_LOCAL * EPS * sc))
+          { bad = true; cfail(ctx, key + " origin", "the origin of the last operation maps to (" + fmt(x) + "," + fmt(y) + "," + fmt(z) + ") instead of (0,0,0)", FF("history-origin")); }
+        double la, lo, hh; m.L.Reverse(0, 0, 0, la, lo, hh);
+        if (!(std::fabs(hh - a.h) <= TOL_LOCAL * EPS * sc * 4)) { bad = true; cfail(ctx, key + " rev0", "Reverse(0,0,0) has height " + fmt(hh) + " instead of " + fmt(a.h), FF("history-origin")); } }
+      LocalCartesian C(m.L);
+      for (const auto& p : probes) {
+        double x1, y1, z1, x2, y2, z2, x3, y3, z3; std::vector<double> M1(9), M2(9);
+        m.L.Forward(p[0], p[1], p[2], x1, y1, z1, M1); F.Forward(p[0], p[1], p[2], x2, y2, z2, M2); C.Forward(p[0], p[1], p[2], x3, y3, z3);
+        bool ok = mc::same_bits(x1, x2) && mc::same_bits(y1, y2) && mc::same_bits(z1, z2) && mc::same_bits(x1, x3) && mc::same_bits(y1, y3) && mc::same_bits(z1, z3);
+        for (int i = 0; i < 9; ++i) ok = ok && mc::same_bits(M1[i], M2[i]);
+        double a1, b1, c1, a2, b2, c2; m.L.Reverse(x2, y2, z2, a1, b1, c1, M1); F.Reverse(x2, y2, z2, a2, b2, c2, M2);
+        ok = ok && mc::same_bits(a1, a2) && mc::same_bits(b1, b2) && mc::same_bits(c1, c2);
+        for (int i = 0; i < 9; ++i) ok = ok && mc::same_bits(M1[i], M2[i]);
+        if (!ok) { bad = true; cfail(ctx, key + " probe", "Forward/Reverse of probe (" + fmt(p[0]) + "," + fmt(p[1]) + "," + fmt(p[2]) + ") differ from the freshly constructed object: (" + fx(x1) + "," + fx(y1) + "," + fx(z1) + ") vs (" + fx(x2) + "," + fx(y2) + "," + fx(z2) + ")", FF("history-behaviour")); break; }
+      }
+      if (ctx.want_sample()) ctx.sample(key);
+      if (seen.emplace(km, d).second) next.push_back(m);            // a new state: explore from it at the next depth
+      (void)bad;
+    }
+    frontier.swap(next);
+  }
+  ctx.count("history_states", seen.size()); ctx.count("history_transitions", ntrans);
+}
+
 int main(int argc, char** argv) {
   Ctx ctx(argc, argv);
   const bool T = ctx.thorough();
@@ -433,6 +515,18 @@ int main(int argc, char** argv) {
       std::vector<double> hh = hs; if (hsc != 1) for (double& x : hh) x *= hsc;
       check_local(ctx, *v, lat0, lon0, hh0, lats, lons, hh);
     }
+  }
+  // ================================================================= E2: Reset / construct histories of one object
+  {
+    ctx.sub("local-history");
+    std::vector<double> hl{48.25, 90, -90}, ho{11.5, 371.5, -170}, hh{0, 1200, -35.5};
+    if (T) { for (double x : {0.0, -48.25}) hl.push_back(x); for (double x : {180.0, -180.0, 11.5 - 720}) ho.push_back(x); for (double x : {5000.0, 1e-3}) hh.push_back(x); }
+    std::vector<LCArg> A; for (double la : hl) for (double lo : ho) for (double h : hh) A.push_back({la, lo, h});
+    const int depth = T ? 4 : 3;
+    ctx.bound("local.history", std::string("E2 BFS over all histories of {construct, Reset} x ") + fmti((long long)A.size()) + " colliding origins (lat " + fmti((long long)hl.size()) + " values incl. both poles x lon " + fmti((long long)ho.size()) +
+              " values incl. lon + 360 k, +-180 x h " + fmti((long long)hh.size()) + " values) up to depth " + fmti(depth) + ", from the default-constructed object, on " + (T ? "WGS84, sphere, prolate f=-1" : "WGS84, prolate f=-1") +
+              "; states de-duplicated on the bits of all private fields; every state compared bit for bit with a freshly constructed object");
+    for (int ei : (T ? std::vector<int>{0, 1, 2} : std::vector<int>{0, 2})) { if (!ctx.take()) continue; check_local_history(ctx, *envs[ei], A, depth); }
   }
   ctx.note("round-off scale: max(|P|, a), enlarged (a) for Reverse by |rho(lat)+h|*|lat|, the displacement represented by a relative eps in the returned latitude, and (b) for Forward by nu e^2/(2(1-e^2 sin^2 lat)), the effect of one rounding in 1 - e^2 sin^2 lat; both terms are below 1.6 max(|P|,a) for WGS84-like ellipsoids and reach 155 a / 50 a at the pole of the f = 0.99 ellipsoid (the documentation claims round-off accuracy for terrestrial ellipsoids and states that e > 1/sqrt(2) was not analysed)");
   ctx.list("not_compared", "tools/CartConvert command line (covered by the text-I/O property C10)");
